@@ -260,7 +260,17 @@ func (r *c07run) base(adjPermille int) (model.TmHeight, int64) {
 	if adj {
 		k = 1
 	}
+	stored := func(x uint64) bool { _, ok := r.m.States[model.TmHeight{Rev: r.rev, H: x}]; return ok }
+	if adj {
+		// walk up a run of consecutive stored heights so that the target is new
+		for n := 0; n < 300 && stored(t.H+1) && r.m.Usable(model.TmHeight{Rev: r.rev, H: t.H + 1}, r.predictNow()); n++ {
+			t = model.TmHeight{Rev: r.rev, H: t.H + 1}
+		}
+	}
 	h := r.clampH(int64(t.H) + k)
+	for n := 0; !adj && n < 300 && stored(uint64(h)) && h < r.chain.Cfg.MaxHeight; n++ {
+		h++
+	}
 	if ch.Bool(3, 4) {
 		r.makeVisible(h)
 	}
@@ -636,10 +646,18 @@ func (r *c07run) oneStep() {
 		kind := ch.Pick([]int{4, 3, 3, 2, 2})
 		older := ch.Bool(1, 3)
 		delta := []time.Duration{1, 999, time.Millisecond, time.Second, r.drift}[ch.Int(5)]
-		gate := r.lateInRun() || ch.Bool(1, 6)
+		gate := r.lateInRun() || ch.Bool(1, 8)
 		t := r.m.Latest
 		hs := r.m.Heights()
 		i := ch.Int(len(hs))
+		adj := ch.Bool(2, 3)
+		span := int64(ch.Range(1, 6))
+		if !gate {
+			// too early to play with the client's life: an honest update instead
+			t2, h2 := r.base(300)
+			r.submitReq("skip", tmchain.HeaderReq{Height: h2, TrustedHeight: r.th(t2.H)})
+			return
+		}
 		if older {
 			t = hs[i]
 		}
@@ -656,7 +674,10 @@ func (r *c07run) oneStep() {
 		r.tickTo(target, gate && (kind == 1 || kind == 2 || kind == 4))
 		w.Stats.Inc(fmt.Sprintf("clock-expiry-%d", kind))
 		// update trusting t, to a height that is visible now
-		h := r.clampH(int64(t.H) + int64(ch.Range(1, 6)))
+		if adj {
+			span = 1
+		}
+		h := r.clampH(int64(t.H) + span)
 		if vis := r.chain.HeadBefore(r.predictNow().Add(r.drift)); vis > int64(t.H) && h > vis {
 			h = vis
 		}
